@@ -33,8 +33,11 @@ def gen_case(rng):
     long = rng.random() < 0.2
     N = 2400 if long else rng.randint(6, 40)
     nch = rng.randint(1, 4)
+    big = rng.random() < 0.1 and not long            # delays of ~2.5e5 samples that differ by a few samples
+    if big:
+        nch = rng.randint(2, 3)
     chans = rng.sample(CHAN_POOL, nch)
-    kinds = {c: rng.choice(["bp", "bp", "arr"]) for c in chans}
+    kinds = {c: rng.choice(["bp", "bp", "arr"]) if not big else "bp" for c in chans}
     subs = rng.random() < 0.3 and not long
     s, ops, meta = build_sequence(rng, regs, SR, N, chans, rng.randint(1, 3 if not long else 2), kinds,
                                   ["ramp", "ua"], subs=subs, waits=rng.choice([True, 0.6]),
@@ -45,12 +48,11 @@ def gen_case(rng):
         ops.append(("SSetSR", s, SR * rng.choice([2, 0.5])))
     delays = {}
     zero_all = rng.random() < 0.12
-    big = rng.random() < 0.06 and not long and len(chans) >= 2           # delays of ~2.5e5 samples that differ by a few samples
     big_base = rng.choice([250000, 400000])
     for c in chans:
         d = 0 if zero_all else delay_value(rng, SR)
         if big:
-            d = float(Fraction(big_base + rng.choice([0, 2, 4, 7])) / Fraction(SR))
+            d = float(Fraction(big_base + 4 * chans.index(c) + rng.choice([0, 2])) / Fraction(SR))      # pairwise different
         redeclared = rng.random() < 0.3
         if redeclared:
             # a delay set earlier and then changed (possibly back to 0): only the last value counts
